@@ -77,6 +77,9 @@ def apply_state(AC, d, s, rng=None):
         sets = sets[1:]
     if rng is not None:
         rng.shuffle(sets)
+        # enumerated settings may be given as plain integers (a state restored from JSON, a home-automation integration): same meaning
+        if rng.random() < 0.3:
+            sets = [(n, int(v)) if n in ("operational_mode", "swing_mode", "aux_mode", "fan_speed") and not isinstance(v, bool) else (n, v) for n, v in sets]
         # the deprecated spellings are public setters too (eco_mode, turbo_mode, sleep_mode, freeze_protection_mode): used for a quarter of the calls
         alias = {"eco": "eco_mode", "turbo": "turbo_mode", "sleep": "sleep_mode", "freeze_protection": "freeze_protection_mode"}
         sets = [(alias[n], v) if n in alias and rng.random() < 0.25 else (n, v) for n, v in sets]
@@ -208,6 +211,33 @@ def collect_contexts(ctx: Ctx, states):
     return vectors
 
 
+def collect_cli(ctx: Ctx, states):
+    """Another entry point to the same encoder: `msmart-ng control` with every setting of the requested state on the command line (and the display
+    toggled when it has to be): the 0x40 command the unit receives carries exactly that state."""
+    from .c20 import run_cli
+    rng = ctx.rng
+    MODE = {1: "auto", 2: "cool", 3: "dry", 4: "heat", 5: "fan_only", 6: "smart_dry"}
+    vectors = []
+    for s in states:
+        disp = rng.random() < 0.5
+        model = acdev.ACModel(state=dict(rand_state(rng), display=disp), state_len=24)
+        model.state.pop("beep", None)
+        want_disp = rng.choice([disp, not disp])
+        args = [f"power_state={s['power']}", f"target_temperature={s['t2'] / 2}", f"operational_mode={rng.choice([MODE[s['mode']], str(s['mode'])])}",
+                f"fan_speed={s['fan']}", f"swing_mode={s['swing']}", f"follow_me={s['follow']}", f"turbo={s['turbo']}", f"eco={s['eco']}",
+                f"purifier={s['purifier']}", f"aux_mode={s['aux']}", f"sleep={s['sleep']}", f"fahrenheit={s['fahr']}", f"target_humidity={s['hum']}",
+                f"freeze_protection={s['freeze']}", f"beep={s.get('beep', False)}"]
+        rng.shuffle(args)
+        args.insert(rng.randrange(len(args) + 1), f"display_on={want_disp}")
+        model.log.clear()
+        obs = run_cli(["control", "10.0.0.50"] + args, model, 2)
+        devst = [i for k, i in model.log if k == "set_state"]
+        frames = obs["frames40"]
+        vectors.append({"req": s, "frame": frames[0] if frames else [], "devstate": devst[0] if devst else {}, "exc": obs["exc"] or ("none" if obs["exit"] == 0 else f"exit {obs['exit']}"),
+                        "n40": len(frames), "context": "msmart-ng control" + (" with a display toggle" if want_disp != disp else ""), "pending": []})
+    return vectors
+
+
 def run(ctx: Ctx) -> int:
     ctx.mc("MC_C10", "INIT Init\nNEXT Next\nINVARIANT RoundTrip\nINVARIANT Shape\nINVARIANT DeviceAccepts\n")
     states = cases(ctx)
@@ -216,6 +246,7 @@ def run(ctx: Ctx) -> int:
     for st in sub[:len(sub) // 2]:
         st["beep"] = True
     vectors += collect_contexts(ctx, sub)
+    vectors += collect_cli(ctx, [dict(st) for st in ctx.rng.sample(states, min(len(states), ctx.pick(150, 2500)))])
     for v in vectors:
         ctx.count_distinct((v.get("context", "fresh"),) + tuple(sorted(v["req"].items())))
     tlc_in = []
